@@ -23,8 +23,8 @@ PID = "C28"
 LEVEL = "translation_validation"
 LEAN = ["SaVerif.Props.C28"]  # imports Model.Event and Lemmas.ExecOnce
 META = {
-    "text": "Lean model of the listener registry (class-level deques with lazy update_subclass over a class tree that grows, instance collections, registry keys, once wrappers) with theorems over ALL op sequences; exec_once as an LTS with a mutex proved at-most-once for any number of threads and interleavings. Tied to the real sqlalchemy.event by a differential run (call lists + error kinds) and by a declarative spec oracle; concurrent exec_once/once dispatch explored under the deterministic scheduler.",
-    "note": "Single inheritance only (diamonds: direct oracle on a fixed family only); one event name; retval / _update / _join not modelled. dispatch_eq_spec is proved under the hypothesis that live class-level registrations relevant to one class carry pairwise different listener objects (see *_partial / *_counterexample and known findings).",
+    "text": "Lean model of the listener registry (class-level deques with lazy update_subclass over a class tree that grows, instance collections, registry keys, once wrappers) with theorems over ALL op sequences; exec_once as an LTS with a mutex proved at-most-once for any number of threads and interleavings. Tied to the real sqlalchemy.event by a differential run (call lists + error kinds), by a declarative spec oracle, and for exec_once by trace inclusion: the reads/writes of _exec_once and _exec_once_mutex, Lock creations and acquire/release of real concurrent exec_once runs under the deterministic scheduler are replayed by the Lean driver as runs of the LTS.",
+    "note": "exec_once_at_most_once is proved only for atomic mutex creation (_partial) with a machine-checked counterexample for the code as it is on GIL builds (util.mini_gil = nullcontext) - reproduced with real threads, see known_findings.d/C28.json. Single inheritance only (diamonds: direct oracle on a fixed family only); one event name; retval / _update / _join not modelled. dispatch_eq_spec is proved under the hypothesis that live class-level registrations relevant to one class carry pairwise different listener objects (see *_partial / *_counterexample and known findings).",
     "technique": "Lean 4 model + invariant proofs; differential correspondence; declarative spec oracle; deterministic scheduler for exec_once",
     "design_ref": "DESIGN.md §3 C28",
 }
@@ -323,25 +323,82 @@ def one(ctx, ops, cases, impl_out, reqs):
 # --------------------------------------------------------------------------- concurrency
 def run_concurrent(case, chooser):
     """k workers call exec_once / dispatch a once-listener concurrently under the
-    deterministic scheduler; returns (failures, saw_index_error)"""
+    deterministic scheduler; returns (failures, saw_index_error, trace) where trace is
+    (model request line, expected answer) for plain exec_once runs, else None"""
+    import sys
+
     from harness import lib_sched
     import sqlalchemy.event.attr as attr
 
     k, mode, fail_first = case["threads"], case["mode"], case["fail_first"]
     sched = lib_sched.Sched(chooser, trace_files=("sqlalchemy/event/attr.py", "sqlalchemy/util/langhelpers.py"), max_steps=4000)
     w = World()
-    saved = attr.threading
+    saved = (attr.threading, attr._ListenerCollection)
     shim = sched.threading_shim()
     locks = []
     mk_lock = shim.Lock
+    labels = []
+    last = {}
+    ret_read = {}
+
+    def log(lab):
+        wk = sched.cur()
+        if wk is not None:
+            labels.append("%d:%s" % (wk.idx, lab))
+            last[wk.idx] = lab
 
     def counting_lock():
         lk = mk_lock()
         locks.append(lk)
+        log("mk:%d" % (len(locks) - 1))
+        lk.on_acquire = lambda wk: log("acq")
+        lk.on_release = lambda wk: log("rel")
         return lk
 
     shim.Lock = counting_lock
+
+    class TLC(attr._ListenerCollection):
+        """_ListenerCollection whose _exec_once / _exec_once_mutex attributes report
+        their reads and writes (defined here; the code under test is untouched)"""
+
+        __slots__ = ("_eo", "_eom")
+
+        def _g_eo(self):
+            v = self._eo
+            caller = sys._getframe(1).f_code.co_name
+            if caller in ("exec_once", "exec_once_unless_exception"):
+                log("rdFlag:%d" % int(v))
+            elif caller == "_exec_once_impl":
+                log("rdFlag2:%d" % int(v))
+            return v
+
+        def _s_eo(self, v):
+            if sched.cur() is not None and v:
+                log("setFlag")
+            self._eo = v
+
+        def _g_eom(self):
+            v = self._eom
+            wk = sched.cur()
+            if wk is not None and sys._getframe(1).f_code.co_name == "_get_exec_once_mutex":
+                if ret_read.pop(wk.idx, False) and v is not None:
+                    log("rdMutexRet:%d" % locks.index(v))  # `return self._exec_once_mutex`
+                else:
+                    log("rdMutex:%s" % ("N" if v is None else locks.index(v)))
+                    if v is not None:
+                        ret_read[wk.idx] = True
+            return v
+
+        def _s_eom(self, v):
+            if sched.cur() is not None:
+                log("asg")
+            self._eom = v
+
+        _exec_once = property(_g_eo, _s_eo)
+        _exec_once_mutex = property(_g_eom, _s_eom)
+
     attr.threading = shim
+    attr._ListenerCollection = TLC
     runs, errors, failures = [], [], []
     try:
         def listener(*a, **kw):
@@ -349,6 +406,7 @@ def run_concurrent(case, chooser):
             sched.yield_point("in-listener")
             if fail_first and len(runs) == 1:
                 raise RuntimeError("first run fails")
+            log("ret")
 
         obj = w.classes[0]()
         w.event.listen(obj, "ev", listener, once=(mode == "once-listener"))
@@ -372,10 +430,15 @@ def run_concurrent(case, chooser):
         for _ in range(k):
             sched.spawn(prog)
         status = sched.run()
+        flag = bool(coll._eo)
     finally:
-        attr.threading = saved
+        attr.threading, attr._ListenerCollection = saved
         w.close()
     n_ok = len(runs)
+    trace = None
+    if mode == "exec_once" and not fail_first and status == "done":
+        # atomicInit = 0: the code as it is on a GIL build (three-step lazy creation)
+        trace = ("execonce run 0 %d %s" % (k, ",".join(labels) or "-"), "ok runs=%d flag=%s held=0" % (n_ok, "true" if flag else "false"))
     if len(locks) > 1 and mode != "once-listener":
         # _get_exec_once_mutex created more than one Lock for one collection: the lazy
         # creation raced (util.mini_gil is a nullcontext on GIL builds)
@@ -392,18 +455,19 @@ def run_concurrent(case, chooser):
         failures.append(("c28-once-listener-twice", "a once=True listener ran %d times under concurrent dispatch" % n_ok))
     elif mode == "sync_first" and n_ok != k:
         failures.append(("c28-sync-first-lost", "_exec_w_sync_on_first_run ran %d times for %d calls" % (n_ok, k)))
-    return failures, "IndexError" in errors
+    return failures, "IndexError" in errors, trace
 
 
 KNOWN_RACE = {"mode": "exec_once", "threads": 2, "fail_first": False,
               "choices": ["t0", "t0", "t1", "t1", "t0", "t0", "t0", "t0", "t1", "t1", "t1", "t1", "t1", "t0", "t0", "t0", "t0", "t0", "t0", "t0", "t1"]}
 
 
-def exec_once_schedules(ctx, n):
+def exec_once_schedules(ctx, n, traces):
     from harness import lib_sched
 
     # the recorded schedule of the known lazy-mutex race is replayed in every run
-    failures, _ = run_concurrent(KNOWN_RACE, lib_sched.ReplayChooser(KNOWN_RACE["choices"]))
+    failures, _, tr = run_concurrent(KNOWN_RACE, lib_sched.ReplayChooser(KNOWN_RACE["choices"]))
+    traces.append((dict(KNOWN_RACE), tr))
     ctx.count("concurrent=replayed-known-race")
     for key, detail in failures:
         ctx.violation(key, dict(KNOWN_RACE), detail)
@@ -415,8 +479,10 @@ def exec_once_schedules(ctx, n):
             "fail_first": rng.random() < 0.3,
         }
         chooser = lib_sched.RandomChooser(random.Random(rng.randrange(1 << 30)), rng.choice([0.1, 0.3, 0.6]), 0.0)
-        failures, ie = run_concurrent(case, chooser)
+        failures, ie, tr = run_concurrent(case, chooser)
         case["choices"] = list(chooser.choices)
+        if tr is not None:
+            traces.append((case, tr))
         ctx.case(("x", case["mode"], case["threads"], case["fail_first"], tuple(chooser.choices)), nontrivial=True)
         ctx.count("concurrent=" + case["mode"])
         if ie:
@@ -448,9 +514,13 @@ def run(ctx, deep=False):
     for ops in exhaustive(4 if thorough else 3):
         one(ctx, ops, cases, impl_out, reqs)
         ctx.count("exhaustive")
-    exec_once_schedules(ctx, 3000 if thorough else 400)
+    traces = []
+    exec_once_schedules(ctx, 3000 if thorough else 400, traces)
     if ctx.driver_ok():
         ctx.correspond("corr/c28:event-registry-vs-Model.Event", cases, impl_out, ctx.driver(reqs))
+        ctx.correspond(
+            "corr/c28:exec_once-trace-inclusion-in-Model.ExecOnce",
+            [c for c, _ in traces], [t[1] for _, t in traces], ctx.driver([t[0] for _, t in traces]))
     ctx.exhaustive = False
 
 
@@ -465,7 +535,7 @@ def replay(ctx, obj):
     if "ops" not in c:
         from harness import lib_sched
 
-        failures, _ = run_concurrent(c, lib_sched.ReplayChooser(c.get("choices") or []))
+        failures, _, _ = run_concurrent(c, lib_sched.ReplayChooser(c.get("choices") or []))
         print("replay C28 concurrent case %s -> %s" % ({k: v for k, v in c.items() if k != "choices"}, failures or "no violation"))
         return bool(failures)
     ops = [tuple(o) for o in c["ops"]]
